@@ -804,4 +804,135 @@ Proof.
   - destruct Hrest as (Hi & _ & _ & [Heq|Hnm]); [congruence|].
     exfalso. destruct (Hnames _ _ Hd _ _ _ _ _ _ _ _ Hl Hn Hl Hn) as [[Hne _] _]. now apply Hne.
 Qed.
+
+(* replaying what cg_where reports for a step (the pushed label and index) repeats the step *)
+Lemma where_step top L idx e zo :
+  entry_ok top -> 0 < idx -> next_posit tbl root top L idx "" = NPush e zo ->
+  next_posit tbl root top (pe_label e) (pe_index e) "" = NPush e zo.
+Proof.
+  intros Htop Hidx Hnp. rewrite (index_reproduced _ _ _ _ _ Htop Hidx Hnp).
+  destruct (step_facts _ _ _ _ _ _ Htop Hnp) as (ps & pty & arms & cs & alts & a & p & Hfb & Hb & Ha & HL & Hin & Hd & _ & _ & _ & _ & Hall & _ & Hspec).
+  destruct Hspec as (i & l & c & _ & _ & _ & _ & _ & Hlab & _). rewrite <- Hnp, Hlab.
+  eapply next_posit_label_indep; eauto.
+  rewrite forallb_forall in Hall. apply (pushed_label_in cs a L (alt_ok_plabel _ _ _ (Hall _ Hin)) HL).
+Qed.
+
+Lemma app_last_inj {A} (a : list A) x y : a ++ [x] = a ++ [y] -> x = y.
+Proof. intros H. apply app_inv_head in H. now inversion H. Qed.
+
+(* ---- by name: the multiple template *)
+Lemma run_alt_multi_name p paddr L pty cs cl al lo hi cb ap ai k sz za pl idx idx0 e zo :
+  alt_ok ss pty cs (AMulti cl al lo hi cb ap ai k sz za pl) = true -> node_ok ss p -> m_ty p = pty ->
+  (forall l i j ci cj, get_ptr p al = Some l -> nth_opt l i = Some ci -> nth_opt l j = Some cj ->
+                       m_name ci = m_name cj -> i = j) ->
+  0 < idx -> idx0 <= 0 ->
+  run_alt p paddr L "" (AMulti cl al lo hi cb ap ai k sz za pl) idx = inl (NPush e zo) ->
+  exists l c, get_ptr p al = Some l /\ nth_opt l (idx - 1) = Some c /\ pe_addr e = paddr ++ [(al, idx - 1)] /\
+    run_alt p paddr L (m_name c) (AMulti cl al lo hi cb ap ai k sz za pl) idx0 = inl (NPush e zo).
+Proof.
+  intros Hok [Hptr Hcnt] Hty Huniq Hidx Hidx0 Hrun.
+  apply alt_ok_multi in Hok as (-> & -> & -> & -> & -> & -> & Hza & Hpl & Hadj & [t Ht]).
+  rewrite <- Hty in Hadj. destruct (Hcnt _ _ Hadj) as [l [Hl Hc]].
+  unfold run_alt in Hrun |- *. rewrite Hc, Hl in Hrun. rewrite Hc, Hl.
+  destruct (Z.ltb_spec (idx - 1) 0) as [Hlt|Hge]; [lia|].
+  destruct (Z.ltb_spec (idx0 - 1) 0) as [Hlt0|Hge0]; [|lia].
+  simpl in Hrun.
+  destruct (0 <=? idx - 1) eqn:E0; simpl in Hrun; [|discriminate].
+  destruct (idx - 1 <? lenZ l) eqn:E1; [|discriminate].
+  destruct (nth_opt l (idx - 1)) as [c|] eqn:En; [|discriminate].
+  exists l, c. repeat split; auto.
+  - inversion Hrun; subst. reflexivity.
+  - assert (Hloop : name_loop l (Z.to_nat (lenZ l)) 0 (m_name c) = Some (Some (0 + (idx - 1)))).
+    { apply name_loop_finds with (c := c); auto.
+      - apply Z.ltb_lt in E1. unfold lenZ in *. lia.
+      - intros j cj Hj Hnj Heq. assert (j = idx - 1) by (eapply Huniq; eauto). lia. }
+    rewrite Z.add_0_l in Hloop. rewrite Hloop. simpl. rewrite E0, E1. simpl. rewrite En. exact Hrun.
+Qed.
+
+(* ---- by name: a list of single alternatives *)
+Lemma run_alts_singles_name p paddr L pty cs (Hn : node_ok ss p) (Hty : m_ty p = pty)
+  (Hnm : forall f1 l1 i1 c1 f2 l2 i2 c2,
+      get_ptr p f1 = Some l1 -> nth_opt l1 i1 = Some c1 -> get_ptr p f2 = Some l2 -> nth_opt l2 i2 = Some c2 ->
+      name_valid (m_name c1) /\ (m_name c1 = m_name c2 -> f1 = f2 /\ i1 = i2)) :
+  forall alts idx idx0 e zo,
+  forallb alt_is_single alts = true -> forallb (alt_ok ss pty cs) alts = true -> nodupb (map alt_field alts) = true ->
+  0 < idx -> idx0 <= 0 ->
+  run_alts p paddr L "" alts idx = NPush e zo ->
+  exists f c l', pe_addr e = paddr ++ [(f, 0)] /\ get_ptr p f = Some (c :: l') /\
+    run_alts p paddr L (m_name c) alts idx0 = NPush e zo.
+Proof.
+  induction alts as [|y rest IH]; intros idx idx0 e zo Hs Hall Hnd Hidx Hidx0 Hrun; simpl in Hrun; [discriminate|].
+  simpl in Hs, Hall, Hnd. apply andb_prop in Hs as [Hs1 Hs]. apply andb_prop in Hall as [Hy Hall].
+  apply andb_prop in Hnd as [Hnotin Hnd]. apply negb_true_iff in Hnotin.
+  destruct y as [|pt pn pp pi it ip pl]; [discriminate|].
+  pose proof Hy as Hy'. apply alt_ok_single in Hy' as (-> & -> & -> & -> & Hit & Hpl & [t Ht]).
+  destruct Hn as [Hptr Hcnt]. rewrite <- Hty in Ht. destruct (Hptr _ _ Ht) as [ly [Hly _]].
+  simpl. unfold run_alt in Hrun |- *. rewrite Hly in *.
+  destruct ly as [|cy ly'].
+  - (* NULL pointer: both fall through *)
+    destruct (IH idx idx0 e zo Hs Hall Hnd Hidx Hidx0 Hrun) as (f & c & l' & Ha & Hg & Hr). exists f, c, l'. auto.
+  - destruct (Z.eqb_spec idx0 it) as [Heq|Hne]; [lia|].
+    destruct (Z.eqb_spec idx it) as [Heq|Hne2].
+    + (* selected by its index: by name it is selected as well *)
+      exists pt, cy, ly'. inversion Hrun; subst. simpl. repeat split; auto.
+      rewrite String.eqb_refl. reflexivity.
+    + destruct (Hnm _ _ _ _ _ _ _ _ Hly (nth_opt_0 _ _ _ eq_refl) Hly (nth_opt_0 _ _ _ eq_refl)) as [[Hne0 _] _].
+      destruct (String.eqb_spec (m_name cy) ""); [contradiction|].
+      destruct (IH idx idx0 e zo Hs Hall Hnd Hidx Hidx0 Hrun) as (f & c & l' & Ha & Hg & Hr).
+      exists f, c, l'. repeat split; auto.
+      destruct (String.eqb_spec (m_name cy) (m_name c)) as [Heqn|]; [|exact Hr].
+      exfalso. destruct (Hnm _ _ _ _ _ _ _ _ Hly (nth_opt_0 _ _ _ eq_refl) Hg (nth_opt_0 _ _ _ eq_refl)) as [_ Hu].
+      destruct (Hu Heqn) as [Hf _]. subst f.
+      (* the pushing alternative of rest has field pt, which is not among the fields of rest *)
+      assert (Hin : In pt (map alt_field rest)).
+      { destruct (run_alts_singles_spec p paddr L "" cs pty (conj Hptr Hcnt) Hty rest idx e zo Hs Hall Hrun) as [a' [Hina (i' & l2 & c2 & Haddr & _)]].
+        rewrite Ha in Haddr. apply app_last_inj in Haddr. inversion Haddr. apply in_map_iff. exists a'. split; auto. }
+      apply mem_In in Hin. simpl in Hnotin. congruence.
+Qed.
+
+(* ---- by name: one step *)
+Lemma name_step top L idx e zo idx0 :
+  entry_ok top -> 0 < idx -> idx0 <= 0 -> next_posit tbl root top L idx "" = NPush e zo ->
+  exists c, deref root (pe_addr e) = Some c /\ name_valid (m_name c) /\
+    fdb (pe_id top) (m_name c) = Some (m_id c, m_label c) /\
+    next_posit tbl root top (m_label c) idx0 (m_name c) = NPush e zo.
+Proof.
+  intros Htop Hidx Hidx0 Hnp.
+  destruct (step_facts _ _ _ _ _ _ Htop Hnp) as (ps & pty & arms & cs & alts & a & p & Hfb & Hb & Ha & HL & Hin & Hd & Hty & Hidp & Hnode & Hshape & Hall & Hrun & Hspec).
+  assert (Hgoal : exists f i l c, pe_addr e = pe_addr top ++ [(f, i)] /\ get_ptr p f = Some l /\ nth_opt l i = Some c /\
+             (exists x, In x alts /\ alt_field x = f) /\
+             run_alts p (pe_addr top) L (m_name c) alts idx0 = NPush e zo).
+  { destruct alts as [|a1 [|a2 rest]].
+    - discriminate.
+    - destruct a1 as [cl al lo hi cb ap ai k sz za pl|].
+      + cbn [run_alts] in Hrun. destruct (run_alt p (pe_addr top) L "" (AMulti cl al lo hi cb ap ai k sz za pl) idx) as [[e0 z0|c0]|i'] eqn:Er; try discriminate.
+        inversion Hrun; subst e0 z0. simpl in Hall. apply andb_prop in Hall as [Hok _].
+        pose proof Hok as Hok'. apply alt_ok_multi in Hok' as (_ & Hap & _).
+        destruct (run_alt_multi_name p (pe_addr top) L pty cs _ _ _ _ _ _ _ _ _ _ _ idx idx0 e zo Hok Hnode Hty) as (l & c & Hl & Hn & Haddr & Hr); auto.
+        { intros l i j ci cj Hl Hi Hj Heq. destruct (Hnames _ _ Hd _ _ _ _ _ _ _ _ Hl Hi Hl Hj) as [_ Hu]. now destruct (Hu Heq). }
+        exists al, (idx - 1), l, c. repeat split; auto.
+        * exists (AMulti cl al lo hi cb ap ai k sz za pl). split; [now left|]. simpl. exact Hap.
+        * cbn [run_alts]. rewrite Hr. reflexivity.
+      + assert (Hs : forallb alt_is_single [ASingle p_test p_name p_push p_id idx_test idx_push plabel] = true) by reflexivity.
+        destruct (run_alts_singles_name p (pe_addr top) L pty cs Hnode Hty (Hnames _ _ Hd) _ idx idx0 e zo Hs Hall) as (f & c & l' & Haddr & Hg & Hr); auto.
+        exists f, 0, (c :: l'), c. repeat split; auto.
+        destruct (run_alts_singles_spec p (pe_addr top) L "" cs pty Hnode Hty _ idx e zo Hs Hall Hrun) as [a' [Hina (i' & l2 & c2 & Haddr2 & _)]].
+        rewrite Haddr in Haddr2. apply app_last_inj in Haddr2. inversion Haddr2. exists a'. split; auto.
+    - assert (Hsh := Hshape). unfold alts_shape_ok in Hsh.
+      assert (Hs : forallb alt_is_single (a1 :: a2 :: rest) = true /\ nodupb (map alt_field (a1 :: a2 :: rest)) = true).
+      { destruct a1; apply andb_prop in Hsh as [Hsh Hnd]; apply andb_prop in Hsh as [Hsh _]; auto. }
+      destruct Hs as [Hs Hnd].
+      destruct (run_alts_singles_name p (pe_addr top) L pty cs Hnode Hty (Hnames _ _ Hd) _ idx idx0 e zo Hs Hall Hnd) as (f & c & l' & Haddr & Hg & Hr); auto.
+      exists f, 0, (c :: l'), c. repeat split; auto.
+      destruct (run_alts_singles_spec p (pe_addr top) L "" cs pty Hnode Hty _ idx e zo Hs Hall Hrun) as [a' [Hina (i' & l2 & c2 & Haddr2 & _)]].
+      rewrite Haddr in Haddr2. apply app_last_inj in Haddr2. inversion Haddr2. exists a'. split; auto. }
+  destruct Hgoal as (f & i & l & c & Haddr & Hl & Hn & [x [Hx Hxf]] & Hr).
+  exists c. split; [rewrite Haddr; eapply deref_step; eauto|].
+  split; [apply (Hnames _ _ Hd _ _ _ _ _ _ _ _ Hl Hn Hl Hn)|].
+  split; [rewrite <- Hidp; eapply Hsync; eauto|].
+  assert (Hlab : In (m_label c) cs).
+  { rewrite <- Hty in Hb. eapply (Hlabels _ _ Hd _ _ _ _ x l c Hb Ha Hx); [rewrite Hxf; exact Hl|eapply nth_opt_In; eauto]. }
+  rewrite (next_posit_label_indep top ps pty arms cs alts (m_label c) L idx0 (m_name c) Hfb Ha Hlab HL).
+  unfold next_posit. rewrite Hfb. rewrite (find_arm_unique _ _ _ _ _ L Hb Ha HL). rewrite Hd. exact Hr.
+Qed.
 End Agree.
